@@ -44,6 +44,7 @@ _BASE = {
     "cls": T.CLS,
     "OSet": T.OSET,
     "RKey": T.RKEY,
+    "JRep": T.JREP,
 }
 
 
